@@ -429,6 +429,11 @@ fn decide(plan: &Plan, base: &str, log: &Value) -> (Vec<Fail>, BTreeSet<String>,
     (ev.fails, ev.classes, nt, ev.excluded)
 }
 
+pub fn decide_for_dev(plan: &Plan, base: &str, log: &Value) -> (Vec<Fail>, BTreeSet<String>, bool) {
+    let (f, c, nt, _) = decide(plan, base, log);
+    (f, c, nt)
+}
+
 pub fn run_plan(plan: &Plan, keep: bool) -> Result<(Scratch, Value), String> {
     let mut scratch = Scratch::new("c31");
     if keep {
@@ -509,14 +514,45 @@ fn case(d: &mut Draw, thorough: bool, known: &[String]) -> Outcome {
     Outcome::pass(hash_str(&text), nt, classes.into_iter().collect(), text)
 }
 
+/// Reproducer of a listed finding: `{"plan": <Plan>, "expect": <signature>}`,
+/// decided strictly (nothing excluded).
+fn reproducer(payload: &Value) -> Outcome {
+    let Some(mut plan) = payload.get("plan").cloned().and_then(|p| serde_json::from_value::<Plan>(p).ok()) else {
+        return Outcome::skip("reproducer: payload has no plan");
+    };
+    plan.strict_det = true;
+    let expect = payload.get("expect").and_then(|e| e.as_str()).unwrap_or("");
+    let text = plan.describe();
+    let (scratch, log) = match run_plan(&plan, false) {
+        Ok(x) => x,
+        Err(e) => return Outcome::skip(format!("worker: {}", e.chars().take(60).collect::<String>())),
+    };
+    if let Some(f) = log.get("fatal").and_then(|f| f.as_str()) {
+        return Outcome::skip(format!("universe: {}", f.chars().take(80).collect::<String>()));
+    }
+    let base = scratch.path.join("u").to_string_lossy().to_string();
+    let (fails, classes, nt, _) = decide(&plan, &base, &log);
+    if let Some((sig, msg)) = fails.iter().find(|(s, _)| s == expect).or(fails.first()) {
+        return Outcome::fail(sig.clone(), format!("{msg}\n{text}"), json!({"plan": plan, "describe": text}));
+    }
+    Outcome::pass(hash_str(&text), nt, classes.into_iter().collect(), text)
+}
+
 pub fn run(ctx: &Ctx) {
     let thorough = !ctx.is_quick();
+    // hand-made minimal universes of the listed findings (printed as
+    // KNOWN-FINDING while they reproduce, noted when they no longer do)
+    ctx.run_payloads("reproducer", reproducer);
     // C31_CASES: development override of the fixed case count
     let n = std::env::var("C31_CASES").ok().and_then(|s| s.parse().ok()).unwrap_or(ctx.scale(80, 3000));
     let known: Vec<String> = ctx.findings().iter().filter(|f| f.status == "known").map(|f| f.key.clone()).collect();
     ctx.run(
         "universe",
-        CaseCfg::cases(n).choices(900).timeout_s(3000).shrink_iters(40),
+        // C31_SHRINK: development override (a shrink step costs a whole case)
+        CaseCfg::cases(n)
+            .choices(900)
+            .timeout_s(3000)
+            .shrink_iters(std::env::var("C31_SHRINK").ok().and_then(|s| s.parse().ok()).unwrap_or(40)),
         |d: &mut Draw| case(d, thorough, &known),
     );
     ctx.assume("requirement matching and version order are those of the `semver` crate (the reference resolver uses the same crate to decide `satisfies` and `highest`)");
